@@ -53,7 +53,7 @@ T = {
  'c10-4': ('C11', 'a NaN or infinite list index', 'kani:lib/o11_list_determine_index (counterexample replayed natively)', 'missed by the first run (only the tuple variant was harnessed); caught after the list variant was added'),
  'c10-5': ('C10', 'index assignment through a stale alias', 'kani:coll/o10_stale_index_set', 'caught after the stale-alias harnesses'),
  'c05-1': ('C05', 'a threshold collection triggered by a non-object allocation (the in-flight value is not rooted)', 'kani:gc/o05_5_inflight_alloc_survives (added; see DESIGN.md §12)', 'missed by the first run'),
- 'c05-2': ('C09', 'a promoted live string, a nursery collection, then the same characters rebuilt', None, 'the call ORDER inside sweep_obj_nursery / collect_garbage is not under contract (sweep_intern_cache itself is): NOT decided'),
+ 'c05-2': ('C09', 'a promoted live string, a nursery collection, then the same characters rebuilt', 'kani:gc/o09_intern_promoted_survives_nursery (thorough tier, bounded, about 17 min)', 'missed by the quick tier (the call ORDER inside the sweeps is not under a Verus contract); caught by the bounded harness added for it: two nursery collections of one rooted string'),
  'c05-3': ('C05', 'a captured local whose only reference is the stack slot holding the box', 'gctrace/Trace for ObjectRef::trace/post and kani:trace/o05_2_dispatch_lybox', ''),
  'c05-4': ('C05', 'an instance that is the only reference to its class', 'gctrace/Trace for Array::trace/post', 'missed by the first run (per-kind trace bodies were not decided); caught after the gctrace unit'),
  'c05-5': ('C05', 'a fiber blocked on a receive during a collection', 'gctrace/Trace for ChannelQueue::trace/post', 'missed by the first run; caught after the gctrace unit (generated contract: every GC-typed field is traced)'),
